@@ -247,6 +247,11 @@ def _neg_listing(tree):
 
 def replay(o, tree):
     import os
+    if o.get("unit", "").startswith("main_cli["):
+        from contracts import cli_c
+        r = cli_c.replay_cli(o, tree)
+        if r is not None and r["reproduced"]:
+            return r
     r = _neg_listing(tree)
     if r["reproduced"]:
         return r
